@@ -4,6 +4,7 @@ import (
 	"go/ast"
 	"go/token"
 	"go/types"
+	"strings"
 )
 
 // packages whose functions call a function argument synchronously, in the caller's goroutine
@@ -273,8 +274,19 @@ func (w *walker) call(st *state, c *ast.CallExpr) {
 					}
 				}
 				return
+			case "append":
+				if len(c.Args) > 1 {
+					w.aliasWrite(st, c.Args[0], "append", c.Pos())
+				}
+			case "copy":
+				if len(c.Args) > 0 {
+					w.aliasWrite(st, c.Args[0], "copy into", c.Pos())
+				}
+			}
+			switch id.Name {
 			case "delete", "clear":
 				if len(c.Args) > 0 {
+					w.aliasWrite(st, c.Args[0], id.Name, c.Pos())
 					w.expr(st, c.Args[0], true)
 					w.exprs(st, c.Args[1:], false)
 				}
@@ -298,6 +310,20 @@ func (w *walker) call(st *state, c *ast.CallExpr) {
 		return
 	}
 	fn := calleeFunc(c)
+	if fn != nil && fn.Pkg() != nil && len(c.Args) > 0 {
+		if p := fn.Pkg().Path(); (p == "sort" || p == "slices") && (strings.HasPrefix(fn.Name(), "Sort") || fn.Name() == "Slice" || fn.Name() == "SliceStable" ||
+			fn.Name() == "Stable" || fn.Name() == "Reverse" || fn.Name() == "Strings" || fn.Name() == "Ints") {
+			w.aliasWrite(st, c.Args[0], "in-place "+p+"."+fn.Name(), c.Pos())
+		}
+	}
+	// m.Store(k, v): from here on the local v and the container share one value
+	if _, ok := isSyncMapMethod(c, "Store", "LoadOrStore", "Swap"); ok && len(c.Args) == 2 && !st.dead {
+		if id, ok := unparen(c.Args[1]).(*ast.Ident); ok && isSliceOrMap(info.TypeOf(id)) {
+			if o := info.ObjectOf(id); o != nil {
+				defer func() { st.shared[o] = "a sync.Map (stored there)" }()
+			}
+		}
+	}
 	var recvExpr ast.Expr
 	if se, ok := c.Fun.(*ast.SelectorExpr); ok {
 		if sel := info.Selections[se]; sel != nil {
